@@ -66,6 +66,14 @@ def run(F, R, tier):
             R.ob("C14-a", "after a successful seen-insert the cursor advances before the iteration ends", not bad,
                  "a path leaves the loop iteration after `seen.insert(next)` succeeded but before `cur = next`: resolve() stops one hop short of what it recorded (lookups disagree with the walk, resolve is not idempotent)",
                  where(bad[0][1]) if bad else "")
+            # any other way out of the loop is the hop cap: taken only once the number of followed
+            # hops has reached a bound, never below it
+            for br in [x for x in walk(lp["body"]) if x.get("k") in ("Break", "Ret") and x is not seen_break[0]]:
+                g = guards_at(F, br, stop_at=lp)
+                capped = any(x.kind == "cond" and x.pol and x.node.get("k") == "Binary" and x.node["op"] in (">=", ">") and any(y.get("k") == "MethodCall" and y["name"] == "len" for y in walk(x.node["l"])) for x in g) or \
+                    any(x.kind == "cond" and x.pol and x.node.get("k") == "Binary" and x.node["op"] in ("<=", "<") and any(y.get("k") == "MethodCall" and y["name"] == "len" for y in walk(x.node["r"])) for x in g)
+                R.ob("C14-a", "the chain is abandoned early only at the hop cap", capped,
+                     "the resolve loop can be left although the chain continues and the hop count is below the cap (`%s` under %s): redirect chains of two or more hops would resolve to an intermediate specifier" % (expr_text(br)[:20], [x.text()[:40] for x in g if x.kind == "cond"]), where(br))
             # the set is seeded with the starting points before the loop
             seeds = [n for n in walk(res["body"]) if n.get("k") == "MethodCall" and n["name"] == "insert" and n is not ins and peel(n["recv"]).get("lid") == peel(ins["recv"]).get("lid") and may_reach(F, n, lp)]
             R.ob("C14-a", "visited set is seeded before the loop", len(seeds) >= 1, "the starting specifier is not in the visited set: a cycle back to the start is followed once more", where(lp))
